@@ -150,7 +150,7 @@ class DataPath:
             "len": "length",
         }
 
-        if not isinstance(spec, dict):
+        if not isinstance(spec, dict) or not spec:
             raise MalformedDataPathSpec(general_msg)
         else:
             spec_key, spec_val = next(iter(spec.items()))  # single-item dict
